@@ -1683,4 +1683,677 @@ example : (FnM.indexOfParameterNames ["a", "a"] 1).map optName = [some "a"] ∧
     (FnM.indexOfParameterNames ["a", "a"] 2).map optName = [none, some "a"] ∧
     specArgMap ["a", "b", "a"] 4 = [none, some "b", some "a", none] := by decide
 
+/-! ## entering function code: declaration binding instantiation on the real stash -/
+
+/-- dclStash.setValue on the property list: overwrite the value in place, or append a new mutable,
+    non-deletable binding (stash.go:180, :154, :166) -/
+def setValueL (x : String) (v : Fn.V) : List (String × FnM.DclProp) → List (String × FnM.DclProp)
+  | [] => [(x, ⟨v, true, false, false⟩)]
+  | (k, p) :: r => if k = x then (k, { p with value := v }) :: r else (k, p) :: setValueL x v r
+
+/-- `if !hasBinding { createBinding(name, false, value) }` on the property list (cmpl_evaluate.go:100) -/
+def createIfAbsentL (x : String) (v : Fn.V) (ps : List (String × FnM.DclProp)) : List (String × FnM.DclProp) :=
+  match Fn.lookupA x ps with
+  | some _ => ps
+  | none => ps ++ [(x, ⟨v, true, false, false⟩)]
+
+theorem setValueL_absent (x : String) (v : Fn.V) : ∀ ps : List (String × FnM.DclProp), Fn.lookupA x ps = none →
+    setValueL x v ps = ps ++ [(x, ⟨v, true, false, false⟩)] := by
+  intro ps
+  induction ps with
+  | nil => intro _; rfl
+  | cons e r ih =>
+    intro h
+    obtain ⟨k, p⟩ := e
+    by_cases hk : k = x
+    · subst hk; simp [Fn.lookupA] at h
+    · simp only [Fn.lookupA, hk, if_false] at h
+      simp [setValueL, hk, ih h]
+
+theorem setValueL_present (x : String) (v : Fn.V) : ∀ (ps : List (String × FnM.DclProp)) (p : FnM.DclProp),
+    Fn.lookupA x ps = some p → setValueL x v ps = Fn.updateA x { p with value := v } ps := by
+  intro ps
+  induction ps with
+  | nil => intro p h; simp [Fn.lookupA] at h
+  | cons e r ih =>
+    intro p h
+    obtain ⟨k, q⟩ := e
+    by_cases hk : k = x
+    · subst hk; simp only [Fn.lookupA, if_true, Option.some.injEq] at h; subst h; simp [setValueL, Fn.updateA]
+    · simp only [Fn.lookupA, hk, if_false] at h
+      simp [setValueL, Fn.updateA, hk, ih p h]
+
+/-- every binding of the list is mutable (true of a function stash while its code is being entered) -/
+def AllMutable (ps : List (String × FnM.DclProp)) : Prop := ∀ kp ∈ ps, kp.2.mutable_ = true
+
+theorem setValue_fn_run (σ : FnM.St) (st : Nat) (outer : Option Nat) (ps : List (String × FnM.DclProp)) (ar : Option Nat)
+    (x : String) (v : Fn.V) (hs : σ.stash? st = some (.fn outer ps ar)) (hm : AllMutable ps) :
+    FnM.setValue st x v false σ = .ok () { σ with stashes := Fn.setNth σ.stashes st (.fn outer (setValueL x v ps) ar) } := by
+  have hd : FnM.dclProps σ st = ps := by simp [FnM.dclProps, hs]
+  simp only [FnM.setValue, bind_run, getSt_run, hasBinding_run, hasBindingP, hs]
+  cases hl : Fn.lookupA x ps with
+  | none =>
+    simp only [Option.isSome_none, Bool.not_false, if_true, FnM.createBinding, bind_run, getSt_run, hs, FnM.dclCreateBinding, hd,
+      FnM.setDclProps, setStash_run, setValueL_absent x v ps hl]
+  | some p =>
+    have hpm : p.mutable_ = true := hm (x, p) (lookupA_mem x ps p hl)
+    simp only [Option.isSome_some, Bool.not_true, Bool.false_eq_true, if_false, FnM.setBinding, bind_run, getSt_run, hs,
+      FnM.dclSetBinding, hd, hl, hpm, if_true, FnM.setDclProps, setStash_run, setValueL_present x v ps p hl]
+
+theorem allMutable_setValueL (x : String) (v : Fn.V) : ∀ ps, AllMutable ps → AllMutable (setValueL x v ps) := by
+  intro ps
+  induction ps with
+  | nil => intro _ kp h; simp [setValueL] at h; subst h; rfl
+  | cons e r ih =>
+    intro hm kp h
+    obtain ⟨k, p⟩ := e
+    by_cases hk : k = x
+    · simp only [setValueL, hk, if_true, List.mem_cons] at h
+      rcases h with h | h
+      · subst h; exact hm (k, p) List.mem_cons_self
+      · exact hm kp (List.mem_cons_of_mem _ h)
+    · simp only [setValueL, hk, if_false, List.mem_cons] at h
+      rcases h with h | h
+      · subst h; exact hm (k, p) List.mem_cons_self
+      · exact ih (fun q hq => hm q (List.mem_cons_of_mem _ hq)) kp h
+
+/-- the value a binding slot of CallModel stands for: `args` the actual arguments, `fa j` the address of the
+    closure made for the j-th function declaration, `ao` the arguments object -/
+def interp (args : List Fn.V) (fa : Nat → Nat) (ao : Fn.V) : Call.Slot → Fn.V
+  | .arg i => args[i]?.getD .undef
+  | .argUndef => .undef
+  | .fn j => .ref (fa j)
+  | .argumentsObj => ao
+  | .undef => .undef
+
+/-- the property list of the stash IS the abstract environment: same names in the same order, each value the
+    one its slot stands for, every binding mutable -/
+def RelEnv (I : Call.Slot → Fn.V) (ps : List (String × FnM.DclProp)) (e : Call.EnvL) : Prop :=
+  ps.map (fun kp => (kp.1, kp.2.value, kp.2.mutable_)) = e.map (fun ks => (ks.1, I ks.2, true))
+
+theorem rel_setValue (I : Call.Slot → Fn.V) (x : String) (sl : Call.Slot) :
+    ∀ (e : Call.EnvL) (ps : List (String × FnM.DclProp)), RelEnv I ps e →
+      RelEnv I (setValueL x (I sl) ps) (Call.setValue x sl e) := by
+  intro e
+  induction e with
+  | nil =>
+    intro ps h
+    cases ps with
+    | nil => simp [RelEnv, setValueL, Call.setValue]
+    | cons a b => simp [RelEnv] at h
+  | cons ks r ih =>
+    intro ps h
+    cases ps with
+    | nil => simp [RelEnv] at h
+    | cons kp t =>
+      obtain ⟨k, p⟩ := kp
+      obtain ⟨k', s'⟩ := ks
+      simp only [RelEnv, List.map_cons, List.cons.injEq, Prod.mk.injEq] at h
+      obtain ⟨⟨hk, hv, hmu⟩, ht⟩ := h
+      subst hk
+      by_cases hx : k = x
+      · simp [RelEnv, setValueL, Call.setValue, hx, hmu, ht]
+      · have := ih t ht
+        simp only [RelEnv] at this
+        simp [RelEnv, setValueL, Call.setValue, hx, hv, hmu, this]
+
+theorem rel_lookup (I : Call.Slot → Fn.V) (x : String) :
+    ∀ (e : Call.EnvL) (ps : List (String × FnM.DclProp)), RelEnv I ps e →
+      (Fn.lookupA x ps).map (·.value) = (Call.lookup x e).map I := by
+  intro e
+  induction e with
+  | nil => intro ps h; cases ps with
+    | nil => rfl
+    | cons a b => simp [RelEnv] at h
+  | cons ks r ih =>
+    intro ps h
+    cases ps with
+    | nil => simp [RelEnv] at h
+    | cons kp t =>
+      obtain ⟨k, p⟩ := kp
+      obtain ⟨k', s'⟩ := ks
+      simp only [RelEnv, List.map_cons, List.cons.injEq, Prod.mk.injEq] at h
+      obtain ⟨⟨hk, hv, _⟩, ht⟩ := h
+      subst hk
+      by_cases hx : k = x
+      · simp [Fn.lookupA, Call.lookup, hx, hv]
+      · simp [Fn.lookupA, Call.lookup, hx, ih t ht]
+
+theorem rel_createIfAbsent (I : Call.Slot → Fn.V) (x : String) (sl : Call.Slot) (e : Call.EnvL)
+    (ps : List (String × FnM.DclProp)) (h : RelEnv I ps e) :
+    RelEnv I (createIfAbsentL x (I sl) ps) (Call.createIfAbsent x sl e) := by
+  have hl := rel_lookup I x e ps h
+  unfold createIfAbsentL Call.createIfAbsent
+  cases h1 : Fn.lookupA x ps with
+  | none =>
+    rw [h1] at hl
+    cases h2 : Call.lookup x e with
+    | none => simp only [RelEnv] at h ⊢; simp [h]
+    | some s => rw [h2] at hl; simp at hl
+  | some p =>
+    rw [h1] at hl
+    cases h2 : Call.lookup x e with
+    | none => rw [h2] at hl; simp at hl
+    | some s => exact h
+
+theorem setNth_setNth {β : Type} : ∀ (l : List β) (i : Nat) (a b : β), Fn.setNth (Fn.setNth l i a) i b = Fn.setNth l i b := by
+  intro l
+  induction l with
+  | nil => intro i a b; rfl
+  | cons h t ih => intro i a b; cases i <;> simp [Fn.setNth, ih]
+
+theorem getElem?_setNth_self {β : Type} : ∀ (l : List β) (i : Nat) (a : β), i < l.length → (Fn.setNth l i a)[i]? = some a := by
+  intro l
+  induction l with
+  | nil => intro i a h; simp at h
+  | cons h t ih =>
+    intro i a hi
+    cases i with
+    | zero => simp [Fn.setNth]
+    | succ i => simp [Fn.setNth]; exact ih i a (by simpa using hi)
+
+/-- the state whose function stash `st` has the property list `ps'` -/
+def withStash (σ : FnM.St) (st : Nat) (outer : Option Nat) (ps' : List (String × FnM.DclProp)) (ar : Option Nat) : FnM.St :=
+  { σ with stashes := Fn.setNth σ.stashes st (.fn outer ps' ar) }
+
+theorem withStash_stash (σ : FnM.St) (st : Nat) (outer : Option Nat) (ps ps' : List (String × FnM.DclProp)) (ar : Option Nat)
+    (hs : σ.stash? st = some (.fn outer ps ar)) : (withStash σ st outer ps' ar).stash? st = some (.fn outer ps' ar) := by
+  simp only [withStash, FnM.St.stash?]
+  apply getElem?_setNth_self
+  simp only [FnM.St.stash?] at hs
+  exact (List.getElem?_eq_some_iff.1 hs).1
+
+theorem withStash_withStash (σ : FnM.St) (st : Nat) (outer : Option Nat) (ps1 ps2 : List (String × FnM.DclProp)) (ar : Option Nat) :
+    withStash (withStash σ st outer ps1 ar) st outer ps2 ar = withStash σ st outer ps2 ar := by
+  simp [withStash, setNth_setNth]
+
+theorem withStash_self (σ : FnM.St) (st : Nat) (outer : Option Nat) (ps : List (String × FnM.DclProp)) (ar : Option Nat)
+    (hs : σ.stash? st = some (.fn outer ps ar)) : withStash σ st outer ps ar = σ := by
+  simp only [withStash]
+  rw [setNth_self σ.stashes st _ hs]
+
+/-- cmpl_evaluate.go:36–54 on the real stash = CallModel.bindParams on the abstract environment -/
+theorem bindParams_real (I : Call.Slot → Fn.V) (args : List Fn.V) (st : Nat) (outer ar : Option Nat)
+    (hI : ∀ i, I (Call.paramSlot args.length i) = args[i]?.getD .undef) :
+    ∀ (params : List String) (i : Nat) (σ : FnM.St) (ps : List (String × FnM.DclProp)) (e : Call.EnvL),
+      σ.stash? st = some (.fn outer ps ar) → AllMutable ps → RelEnv I ps e →
+      ∃ ps', FnM.bindParams st params args i σ = .ok () (withStash σ st outer ps' ar) ∧
+        RelEnv I ps' (Call.bindParams args.length params i e) ∧ AllMutable ps' := by
+  intro params
+  induction params with
+  | nil =>
+    intro i σ ps e hs hm hr
+    exact ⟨ps, by simp [FnM.bindParams, withStash_self σ st outer ps ar hs], hr, hm⟩
+  | cons p rest ih =>
+    intro i σ ps e hs hm hr
+    have hstep := setValue_fn_run σ st outer ps ar p (args[i]?.getD .undef) hs hm
+    have hs1 := withStash_stash σ st outer ps (setValueL p (args[i]?.getD .undef) ps) ar hs
+    have hr1 : RelEnv I (setValueL p (args[i]?.getD .undef) ps) (Call.setValue p (Call.paramSlot args.length i) e) := by
+      rw [← hI i]; exact rel_setValue I p _ e ps hr
+    obtain ⟨ps', hrun, hrel, hmut⟩ := ih (i+1) (withStash σ st outer _ ar) _ _ hs1 (allMutable_setValueL p _ ps hm) hr1
+    refine ⟨ps', ?_, hrel, hmut⟩
+    simp only [FnM.bindParams, bind_run]
+    rw [hstep]
+    simp only []
+    rw [show ({ σ with stashes := Fn.setNth σ.stashes st (.fn outer (setValueL p (args[i]?.getD .undef) ps) ar) } : FnM.St) =
+        withStash σ st outer (setValueL p (args[i]?.getD .undef) ps) ar from rfl, hrun, withStash_withStash]
+
+theorem curScope_run (σ : FnM.St) (sc : FnM.Scope) (rest : List FnM.Scope) (h : σ.scopes = sc :: rest) :
+    FnM.curScope σ = .ok sc σ := by
+  simp [FnM.curScope, h]
+
+theorem allMutable_createIfAbsentL (x : String) (v : Fn.V) (ps : List (String × FnM.DclProp)) (hm : AllMutable ps) :
+    AllMutable (createIfAbsentL x v ps) := by
+  unfold createIfAbsentL
+  cases Fn.lookupA x ps with
+  | some _ => exact hm
+  | none =>
+    intro kp h
+    rcases List.mem_append.1 h with h | h
+    · exact hm kp h
+    · simp at h; subst h; rfl
+
+/-- cmpl_evaluate.go:100 cmplVariableDeclaration on the real stash = CallModel.bindVars -/
+theorem variableDeclaration_real (I : Call.Slot → Fn.V) (st : Nat) (outer ar : Option Nat) (sc : FnM.Scope)
+    (rest : List FnM.Scope) (hv : sc.variable_ = st) (he : sc.eval = false) (hI : I .undef = .undef) :
+    ∀ (vs : List String) (σ : FnM.St) (ps : List (String × FnM.DclProp)) (e : Call.EnvL),
+      σ.scopes = sc :: rest → σ.stash? st = some (.fn outer ps ar) → AllMutable ps → RelEnv I ps e →
+      ∃ ps', FnM.variableDeclaration vs σ = .ok () (withStash σ st outer ps' ar) ∧
+        RelEnv I ps' (Call.bindVars vs e) ∧ AllMutable ps' := by
+  intro vs
+  induction vs with
+  | nil =>
+    intro σ ps e _ hs hm hr
+    exact ⟨ps, by simp [FnM.variableDeclaration, withStash_self σ st outer ps ar hs], hr, hm⟩
+  | cons name r ih =>
+    intro σ ps e hsc hs hm hr
+    have hd : FnM.dclProps σ st = ps := by simp [FnM.dclProps, hs]
+    have hs1 := withStash_stash σ st outer ps (createIfAbsentL name .undef ps) ar hs
+    have hr1 : RelEnv I (createIfAbsentL name .undef ps) (Call.createIfAbsent name .undef e) := by
+      rw [← hI]; exact rel_createIfAbsent I name .undef e ps hr
+    have hsc1 : (withStash σ st outer (createIfAbsentL name .undef ps) ar).scopes = sc :: rest := hsc
+    obtain ⟨ps', hrun, hrel, hmut⟩ := ih (withStash σ st outer _ ar) _ _ hsc1 hs1 (allMutable_createIfAbsentL name .undef ps hm) hr1
+    refine ⟨ps', ?_, hrel, hmut⟩
+    rw [withStash_withStash] at hrun
+    rw [FnM.variableDeclaration]
+    simp only [bind_run, curScope_run σ sc rest hsc, hv, he, hasBinding_run, hasBindingP, hs]
+    cases hl : Fn.lookupA name ps with
+    | none =>
+      have hc : createIfAbsentL name .undef ps = ps ++ [(name, ⟨.undef, true, false, false⟩)] := by simp [createIfAbsentL, hl]
+      rw [hc] at hrun
+      simp only [Option.isSome_none, Bool.not_false, if_true, FnM.createBinding, bind_run, getSt_run, hs, FnM.dclCreateBinding, hd,
+        FnM.setDclProps, setStash_run]
+      exact hrun
+    | some p =>
+      have hc : createIfAbsentL name .undef ps = ps := by simp [createIfAbsentL, hl]
+      rw [hc, withStash_self σ st outer ps ar hs] at hrun
+      simp only [Option.isSome_some, Bool.not_true, Bool.false_eq_true, if_false, pure_run]
+      exact hrun
+
+theorem allocObj_run (o : FnM.Obj) (σ : FnM.St) : FnM.allocObj o σ = .ok σ.heap.length { σ with heap := σ.heap ++ [o] } := rfl
+
+theorem setNth_length {β : Type} : ∀ (l : List β) (i : Nat) (a : β), (Fn.setNth l i a).length = l.length := by
+  intro l
+  induction l with
+  | nil => intro i a; rfl
+  | cons h t ih => intro i a; cases i <;> simp [Fn.setNth, ih]
+
+theorem getElem?_setNth_ne {β : Type} : ∀ (l : List β) (i j : Nat) (a : β), i ≠ j → (Fn.setNth l i a)[j]? = l[j]? := by
+  intro l
+  induction l with
+  | nil => intro i j a _; rfl
+  | cons h t ih =>
+    intro i j a hij
+    cases i with
+    | zero => cases j with
+      | zero => exact absurd rfl hij
+      | succ j => simp [Fn.setNth]
+    | succ i => cases j with
+      | zero => simp [Fn.setNth]
+      | succ j => simp [Fn.setNth]; exact ih i j a (by omega)
+
+/-- global.go:191 newNodeFunction: two objects are allocated at the end of the heap, nothing else changes -/
+theorem newNodeFunction_run (node : Fn.FE) (stash : Nat) (σ : FnM.St) :
+    ∃ σ', FnM.newNodeFunction node stash σ = .ok σ.heap.length σ' ∧ σ'.stashes = σ.stashes ∧ σ'.scopes = σ.scopes ∧
+      σ'.heap.length = σ.heap.length + 2 ∧ σ'.labels = σ.labels ∧ σ'.trace = σ.trace := by
+  let fo : FnM.Obj := FnM.fnObject node stash
+  let po : FnM.Obj := FnM.plainObject
+  let σ2 : FnM.St := { σ with heap := (σ.heap ++ [fo]) ++ [po] }
+  have h1 : σ2.obj? σ.heap.length = some fo := by
+    simp [FnM.St.obj?, σ2, List.getElem?_append]
+  have hna1 : ∀ ipn st, fo.val ≠ .arguments ipn st := by intro ipn st h; simp [fo, FnM.fnObject] at h
+  have hl1 : Fn.lookupA "prototype" fo.props = none := by simp [fo, FnM.fnObject, Fn.lookupA]
+  have e1 := defineOwnProperty_nonargs σ2 σ.heap.length fo "prototype" (FnM.p100 (.ref (σ.heap.length + 1))) false h1 hna1
+  have e2 := odop_new σ2 σ.heap.length fo "prototype" (FnM.p100 (.ref (σ.heap.length + 1))) false h1 hl1
+  let fo' : FnM.Obj := { fo with props := fo.props ++ [("prototype", FnM.p100 (.ref (σ.heap.length + 1)))] }
+  let σ3 : FnM.St := { σ2 with heap := Fn.setNth σ2.heap σ.heap.length fo' }
+  have hlen3 : σ3.heap.length = σ.heap.length + 2 := by
+    simp [σ3, σ2, setNth_length]
+  have h2 : σ3.obj? (σ.heap.length + 1) = some po := by
+    simp only [FnM.St.obj?, σ3, σ2]
+    rw [getElem?_setNth_ne _ _ _ _ (by omega)]
+    simp [List.getElem?_append]
+  have hna2 : ∀ ipn st, po.val ≠ .arguments ipn st := by intro ipn st h; simp [po, FnM.plainObject] at h
+  have e3 := defineOwnProperty_nonargs σ3 (σ.heap.length + 1) po "constructor" (FnM.p101 (.ref σ.heap.length)) false h2 hna2
+  have e4 := odop_new σ3 (σ.heap.length + 1) po "constructor" (FnM.p101 (.ref σ.heap.length)) false h2 rfl
+  refine ⟨{ σ3 with heap := Fn.setNth σ3.heap (σ.heap.length + 1) { po with props := po.props ++ [("constructor", FnM.p101 (.ref σ.heap.length))] } }, ?_, rfl, rfl, ?_, rfl, rfl⟩
+  · unfold FnM.newNodeFunction
+    simp only [bind_run, allocObj_run, FnM.newObject, FnM.defineProperty, List.length_append, List.length_singleton]
+    rw [show ({ ({ σ with heap := σ.heap ++ [fo] } : FnM.St) with heap := ({ σ with heap := σ.heap ++ [fo] } : FnM.St).heap ++ [po] } : FnM.St) = σ2 from rfl]
+    rw [e1, e2]
+    simp only []
+    rw [show ({ σ2 with heap := Fn.setNth σ2.heap σ.heap.length { fo with props := fo.props ++ [("prototype", FnM.p100 (.ref (σ.heap.length + 1)))] } } : FnM.St) = σ3 from rfl]
+    rw [e3, e4]
+    rfl
+  · simp [setNth_length, hlen3]
+
+def declNames : Fn.FDecls → List String
+  | .nil => []
+  | .cons name _ r => name :: declNames r
+
+theorem declStep_run (σ : FnM.St) (st : Nat) (outer : Option Nat) (ps : List (String × FnM.DclProp)) (ar : Option Nat)
+    (x : String) (v : Fn.V) (hs : σ.stash? st = some (.fn outer ps ar)) (hm : AllMutable ps) :
+    (do let has ← FnM.hasBinding st x
+        if !has then FnM.createBinding st x false v else FnM.setBinding st x v false) σ =
+      .ok () (withStash σ st outer (setValueL x v ps) ar) := by
+  have hd : FnM.dclProps σ st = ps := by simp [FnM.dclProps, hs]
+  simp only [bind_run, hasBinding_run, hasBindingP, hs]
+  cases hl : Fn.lookupA x ps with
+  | none =>
+    simp only [Option.isSome_none, Bool.not_false, if_true, FnM.createBinding, bind_run, getSt_run, hs, FnM.dclCreateBinding, hd,
+      FnM.setDclProps, setStash_run, setValueL_absent x v ps hl]
+    rfl
+  | some p =>
+    have hpm : p.mutable_ = true := hm (x, p) (lookupA_mem x ps p hl)
+    simp only [Option.isSome_some, Bool.not_true, Bool.false_eq_true, if_false, FnM.setBinding, bind_run, getSt_run, hs,
+      FnM.dclSetBinding, hd, hl, hpm, if_true, FnM.setDclProps, setStash_run, setValueL_present x v ps p hl]
+    rfl
+
+/-- cmpl_evaluate.go:79 cmplFunctionDeclaration on the real stash = CallModel.bindFns: the j-th declaration's
+    closure is the object allocated at `h0 + 2·j` (a function object and its prototype object per declaration) -/
+theorem functionDeclaration_real (I : Call.Slot → Fn.V) (st : Nat) (outer ar : Option Nat) (sc : FnM.Scope)
+    (rest : List FnM.Scope) (hv : sc.variable_ = st) (he : sc.eval = false) (h0 : Nat)
+    (hI : ∀ j, I (.fn j) = .ref (h0 + 2 * j)) :
+    ∀ (ds : Fn.FDecls) (n : Nat) (σ : FnM.St) (ps : List (String × FnM.DclProp)) (e : Call.EnvL) (j : Nat),
+      (declNames ds).length < n → σ.scopes = sc :: rest → σ.stash? st = some (.fn outer ps ar) → AllMutable ps →
+      RelEnv I ps e → σ.heap.length = h0 + 2 * j →
+      ∃ ps' σ', FnM.functionDeclaration n ds σ = .ok () σ' ∧ σ'.stash? st = some (.fn outer ps' ar) ∧
+        RelEnv I ps' (Call.bindFns (declNames ds) j e) ∧ AllMutable ps' ∧ σ'.scopes = σ.scopes ∧
+        σ'.heap.length = h0 + 2 * (j + (declNames ds).length) := by
+  intro ds
+  generalize hk : (declNames ds).length = k
+  induction k generalizing ds with
+  | zero =>
+    intro n σ ps e j hn hsc hs hm hr hh
+    cases ds with
+    | cons name f r => simp [declNames] at hk
+    | nil =>
+      cases n with
+      | zero => simp [declNames] at hn
+      | succ n => exact ⟨ps, σ, rfl, hs, hr, hm, rfl, by simp [declNames, hh]⟩
+  | succ k ih =>
+    intro n σ ps e j hn hsc hs hm hr hh
+    cases ds with
+    | nil => simp [declNames] at hk
+    | cons name f r =>
+    have hkr : (declNames r).length = k := by simp [declNames] at hk; exact hk
+    have ih := ih r hkr
+    cases n with
+    | zero => simp at hn
+    | succ n =>
+      obtain ⟨σ1, hnf, hst1, hsc1, hlen1, _, _⟩ := newNodeFunction_run f sc.lexical σ
+      have hs1 : σ1.stash? st = some (.fn outer ps ar) := by simp only [FnM.St.stash?, hst1]; exact hs
+      have hstep := declStep_run σ1 st outer ps ar name (.ref σ.heap.length) hs1 hm
+      have hr1 : RelEnv I (setValueL name (.ref σ.heap.length) ps) (Call.setValue name (.fn j) e) := by
+        rw [hh, ← hI j]; exact rel_setValue I name (.fn j) e ps hr
+      let σ2 := withStash σ1 st outer (setValueL name (.ref σ.heap.length) ps) ar
+      have hs2 : σ2.stash? st = some (.fn outer (setValueL name (.ref σ.heap.length) ps) ar) := withStash_stash σ1 st outer ps _ ar hs1
+      have hsc2 : σ2.scopes = sc :: rest := by show σ1.scopes = _; rw [hsc1]; exact hsc
+      have hh2 : σ2.heap.length = h0 + 2 * (j + 1) := by show σ1.heap.length = _; rw [hlen1, hh]; omega
+      obtain ⟨ps', σ', hrun, hs', hrel, hmut, hscf, hlen⟩ :=
+        ih n σ2 _ _ (j+1) (by simp [declNames] at hn; omega) hsc2 hs2 (allMutable_setValueL name _ ps hm) hr1 hh2
+      refine ⟨ps', σ', ?_, hs', ?_, hmut, ?_, ?_⟩
+      · have hd1 : FnM.dclProps σ1 st = ps := by simp [FnM.dclProps, hs1]
+        rw [FnM.functionDeclaration]
+        simp only [bind_run, curScope_run σ sc rest hsc, hnf, hv, he, hasBinding_run, hasBindingP, hs1]
+        cases hl : Fn.lookupA name ps with
+        | none =>
+          simp only [Option.isSome_none, Bool.not_false, if_true, FnM.createBinding, bind_run, getSt_run, hs1, FnM.dclCreateBinding,
+            hd1, FnM.setDclProps, setStash_run]
+          rw [← setValueL_absent name (.ref σ.heap.length) ps hl]
+          exact hrun
+        | some p =>
+          have hpm : p.mutable_ = true := hm (name, p) (lookupA_mem name ps p hl)
+          simp only [Option.isSome_some, Bool.not_true, Bool.false_eq_true, if_false, FnM.setBinding, bind_run, getSt_run, hs1,
+            FnM.dclSetBinding, hd1, hl, hpm, if_true, FnM.setDclProps, setStash_run]
+          have hp : ({ value := .ref σ.heap.length, mutable_ := true, deletable := p.deletable, readable := p.readable } : FnM.DclProp) =
+              { p with value := .ref σ.heap.length } := by simp [hpm]
+          rw [hp, ← setValueL_present name (.ref σ.heap.length) ps p hl]
+          exact hrun
+      · simpa [declNames, Call.bindFns] using hrel
+      · rw [hscf]; show σ1.scopes = _; exact hsc1
+      · rw [hlen]; simp [declNames]; omega
+
+/-! ## entering function code: §10.5 on FnSpec's environment record -/
+
+/-- the variable list of a declarative record IS the abstract environment -/
+def RelEnvS (I : Call.Slot → Fn.V) (vars : List (String × Fn.V)) (e : Call.EnvL) : Prop :=
+  vars = e.map fun ks => (ks.1, I ks.2)
+
+def setVarS (x : String) (v : Fn.V) (vars : List (String × Fn.V)) (overwrite : Bool) : List (String × Fn.V) :=
+  match Fn.lookupA x vars with
+  | some _ => if overwrite then Fn.updateA x v vars else vars
+  | none => vars ++ [(x, v)]
+
+/-- the state whose declarative record `i` has the variable list `vars'` -/
+def withVars (σ : Fn.St) (i : Nat) (e : Fn.Env) (vars' : List (String × Fn.V)) : Fn.St :=
+  σ.setEnv i { e with vars := vars' }
+
+theorem bindIn_env (σ : Fn.St) (i : Nat) (e : Fn.Env) (x : String) (v : Fn.V) (ow : Bool) (hi : i ≠ 0)
+    (he : σ.envs[i]? = some e) : Fn.bindIn σ i x v ow = withVars σ i e (setVarS x v e.vars ow) := by
+  simp only [Fn.bindIn, hi, if_false, he, setVarS, withVars]
+  cases Fn.lookupA x e.vars with
+  | none => rfl
+  | some w =>
+    cases ow with
+    | true => rfl
+    | false =>
+      simp only [Bool.false_eq_true, if_false, Fn.St.setEnv]
+      have : ({ e with vars := e.vars } : Fn.Env) = e := rfl
+      rw [this, setNth_self σ.envs i e he]
+
+theorem relS_lookup (I : Call.Slot → Fn.V) (x : String) : ∀ (e : Call.EnvL),
+    Fn.lookupA x (e.map fun ks => (ks.1, I ks.2)) = (Call.lookup x e).map I := by
+  intro e
+  induction e with
+  | nil => rfl
+  | cons ks r ih =>
+    obtain ⟨k, s⟩ := ks
+    by_cases hk : k = x
+    · simp [Fn.lookupA, Call.lookup, hk]
+    · simp [Fn.lookupA, Call.lookup, hk, ih]
+
+theorem relS_update (I : Call.Slot → Fn.V) (x : String) (sl : Call.Slot) : ∀ (e : Call.EnvL),
+    (Call.lookup x e).isSome = true →
+    Fn.updateA x (I sl) (e.map fun ks => (ks.1, I ks.2)) = (Call.setValue x sl e).map fun ks => (ks.1, I ks.2) := by
+  intro e
+  induction e with
+  | nil => intro h; simp [Call.lookup] at h
+  | cons ks r ih =>
+    intro h
+    obtain ⟨k, s⟩ := ks
+    by_cases hk : k = x
+    · simp [Fn.updateA, Call.setValue, hk]
+    · simp only [Call.lookup, hk, if_false] at h
+      simp [Fn.updateA, Call.setValue, hk, ih h]
+
+theorem setValue_absent (x : String) (sl : Call.Slot) : ∀ (e : Call.EnvL), Call.lookup x e = none →
+    Call.setValue x sl e = e ++ [(x, sl)] := by
+  intro e
+  induction e with
+  | nil => intro _; rfl
+  | cons ks r ih =>
+    intro h
+    obtain ⟨k, s⟩ := ks
+    by_cases hk : k = x
+    · simp [Call.lookup, hk] at h
+    · simp only [Call.lookup, hk, if_false] at h
+      simp [Call.setValue, hk, ih h]
+
+theorem relS_setValue (I : Call.Slot → Fn.V) (x : String) (sl : Call.Slot) (vars : List (String × Fn.V)) (e : Call.EnvL)
+    (h : RelEnvS I vars e) : RelEnvS I (setVarS x (I sl) vars true) (Call.setValue x sl e) := by
+  unfold RelEnvS at h ⊢
+  subst h
+  unfold setVarS
+  rw [relS_lookup]
+  cases hl : Call.lookup x e with
+  | none => simp [setValue_absent x sl e hl]
+  | some s => simp only [Option.map_some, if_true]; exact relS_update I x sl e (by simp [hl])
+
+theorem relS_createIfAbsent (I : Call.Slot → Fn.V) (x : String) (sl : Call.Slot) (vars : List (String × Fn.V)) (e : Call.EnvL)
+    (h : RelEnvS I vars e) : RelEnvS I (setVarS x (I sl) vars false) (Call.createIfAbsent x sl e) := by
+  unfold RelEnvS at h ⊢
+  subst h
+  unfold setVarS Call.createIfAbsent
+  rw [relS_lookup]
+  cases hl : Call.lookup x e with
+  | none => simp
+  | some s => simp
+
+theorem withVars_env (σ : Fn.St) (i : Nat) (e : Fn.Env) (vars' : List (String × Fn.V)) (he : σ.envs[i]? = some e) :
+    (withVars σ i e vars').envs[i]? = some { e with vars := vars' } := by
+  simp only [withVars, Fn.St.setEnv]
+  exact getElem?_setNth_self σ.envs i _ (List.getElem?_eq_some_iff.1 he).1
+
+theorem withVars_withVars (σ : Fn.St) (i : Nat) (e : Fn.Env) (v1 v2 : List (String × Fn.V)) :
+    withVars (withVars σ i e v1) i { e with vars := v1 } v2 = withVars σ i e v2 := by
+  simp [withVars, Fn.St.setEnv, setNth_setNth]
+
+theorem withVars_self (σ : Fn.St) (i : Nat) (e : Fn.Env) (he : σ.envs[i]? = some e) : withVars σ i e e.vars = σ := by
+  simp only [withVars, Fn.St.setEnv]
+  have : ({ e with vars := e.vars } : Fn.Env) = e := rfl
+  rw [this, setNth_self σ.envs i e he]
+
+/-- §10.5 step 4 (FnSpec.callFn: the fold over the parameters) = CallModel.bindParams -/
+theorem paramsFold_spec (I : Call.Slot → Fn.V) (args : List Fn.V) (i : Nat) (hi : i ≠ 0)
+    (hI : ∀ k, I (Call.paramSlot args.length k) = args[k]?.getD .undef) :
+    ∀ (ps : List String) (j : Nat) (σ : Fn.St) (env0 : Fn.Env) (e : Call.EnvL),
+      σ.envs[i]? = some env0 → RelEnvS I env0.vars e →
+      ∃ vars', ((List.range' j ps.length).zip ps).foldl
+          (fun s (kn : Nat × String) => Fn.bindIn s i kn.2 (args[kn.1]?.getD .undef) true) σ = withVars σ i env0 vars' ∧
+        RelEnvS I vars' (Call.bindParams args.length ps j e) := by
+  intro ps
+  induction ps with
+  | nil =>
+    intro j σ env0 e he hr
+    exact ⟨env0.vars, by simp [withVars_self σ i env0 he], hr⟩
+  | cons p rest ih =>
+    intro j σ env0 e he hr
+    have h1 := bindIn_env σ i env0 p (args[j]?.getD .undef) true hi he
+    have he1 := withVars_env σ i env0 (setVarS p (args[j]?.getD .undef) env0.vars true) he
+    have hr1 : RelEnvS I (setVarS p (args[j]?.getD .undef) env0.vars true) (Call.setValue p (Call.paramSlot args.length j) e) := by
+      rw [← hI j]; exact relS_setValue I p _ env0.vars e hr
+    obtain ⟨vars', hrun, hrel⟩ := ih (j+1) (withVars σ i env0 _) { env0 with vars := setVarS p (args[j]?.getD .undef) env0.vars true } _ he1 hr1
+    refine ⟨vars', ?_, hrel⟩
+    simp only [List.length_cons, List.range'_succ, List.zip_cons_cons, List.foldl_cons, h1]
+    rw [hrun, withVars_withVars]
+
+/-- §10.5 step 8 = CallModel.bindVars -/
+theorem varsFold_spec (I : Call.Slot → Fn.V) (i : Nat) (hi : i ≠ 0) (hI : I .undef = .undef) :
+    ∀ (vs : List String) (σ : Fn.St) (env0 : Fn.Env) (e : Call.EnvL),
+      σ.envs[i]? = some env0 → RelEnvS I env0.vars e →
+      ∃ vars', vs.foldl (fun s x => Fn.bindIn s i x .undef false) σ = withVars σ i env0 vars' ∧
+        RelEnvS I vars' (Call.bindVars vs e) := by
+  intro vs
+  induction vs with
+  | nil =>
+    intro σ env0 e he hr
+    exact ⟨env0.vars, by simp [withVars_self σ i env0 he], hr⟩
+  | cons x rest ih =>
+    intro σ env0 e he hr
+    have h1 := bindIn_env σ i env0 x .undef false hi he
+    have he1 := withVars_env σ i env0 (setVarS x .undef env0.vars false) he
+    have hr1 : RelEnvS I (setVarS x .undef env0.vars false) (Call.createIfAbsent x .undef e) := by
+      rw [← hI]; exact relS_createIfAbsent I x .undef env0.vars e hr
+    obtain ⟨vars', hrun, hrel⟩ := ih (withVars σ i env0 _) { env0 with vars := setVarS x .undef env0.vars false } _ he1 hr1
+    refine ⟨vars', ?_, hrel⟩
+    simp only [List.foldl_cons, h1]
+    rw [hrun, withVars_withVars]
+
+theorem mkFunc_run (σ : Fn.St) (f : Fn.FE) (env : Nat) :
+    (Fn.mkFunc σ f env).1 = .ref σ.heap.length ∧ (Fn.mkFunc σ f env).2.envs = σ.envs ∧
+      (Fn.mkFunc σ f env).2.heap.length = σ.heap.length + 2 := by
+  simp [Fn.mkFunc, Fn.St.alloc, Fn.St.setObj, setNth_length]
+
+/-- §10.5 step 5 (FnSpec.bindDecls) = CallModel.bindFns: the j-th closure is the object at `h0 + 2·j` -/
+theorem bindDecls_spec (I : Call.Slot → Fn.V) (i : Nat) (hi : i ≠ 0) (c : Fn.Ctx) (h0 : Nat)
+    (hI : ∀ j, I (.fn j) = .ref (h0 + 2 * j)) :
+    ∀ (k : Nat) (ds : Fn.FDecls), (declNames ds).length = k →
+    ∀ (n : Nat) (σ : Fn.St) (env0 : Fn.Env) (e : Call.EnvL) (j : Nat),
+      k < n → σ.envs[i]? = some env0 → RelEnvS I env0.vars e → σ.heap.length = h0 + 2 * j →
+      ∃ vars' σ', Fn.bindDecls n ds i c σ = .ok () σ' ∧ σ'.envs[i]? = some { env0 with vars := vars' } ∧
+        RelEnvS I vars' (Call.bindFns (declNames ds) j e) ∧ σ'.heap.length = h0 + 2 * (j + k) := by
+  intro k
+  induction k with
+  | zero =>
+    intro ds hk n σ env0 e j hn he hr hh
+    cases ds with
+    | cons name f r => simp [declNames] at hk
+    | nil =>
+      cases n with
+      | zero => omega
+      | succ n => exact ⟨env0.vars, σ, rfl, he, hr, by simp [hh]⟩
+  | succ k ih =>
+    intro ds hk n σ env0 e j hn he hr hh
+    cases ds with
+    | nil => simp [declNames] at hk
+    | cons name f r =>
+    have hkr : (declNames r).length = k := by simp [declNames] at hk; exact hk
+    cases n with
+    | zero => omega
+    | succ n =>
+      obtain ⟨hv1, henv1, hlen1⟩ := mkFunc_run σ f c.env
+      have he1 : (Fn.mkFunc σ f c.env).2.envs[i]? = some env0 := by rw [henv1]; exact he
+      have h1 := bindIn_env (Fn.mkFunc σ f c.env).2 i env0 name (Fn.mkFunc σ f c.env).1 true hi he1
+      have hr1 : RelEnvS I (setVarS name (Fn.mkFunc σ f c.env).1 env0.vars true) (Call.setValue name (.fn j) e) := by
+        rw [hv1, hh, ← hI j]; exact relS_setValue I name (.fn j) env0.vars e hr
+      have he2 := withVars_env (Fn.mkFunc σ f c.env).2 i env0 (setVarS name (Fn.mkFunc σ f c.env).1 env0.vars true) he1
+      have hh2 : (withVars (Fn.mkFunc σ f c.env).2 i env0 (setVarS name (Fn.mkFunc σ f c.env).1 env0.vars true)).heap.length = h0 + 2 * (j + 1) := by
+        show (Fn.mkFunc σ f c.env).2.heap.length = _
+        rw [hlen1, hh]; omega
+      obtain ⟨vars', σ', hrun, henv', hrel, hlen⟩ := ih r hkr n _ _ _ (j+1) (by omega) he2 hr1 hh2
+      refine ⟨vars', σ', ?_, henv', ?_, ?_⟩
+      · rw [Fn.bindDecls]
+        simp only []
+        rw [h1]; exact hrun
+      · simpa [declNames, Call.bindFns] using hrel
+      · rw [hlen]; omega
+
+/-! ## index names: `idx? (toString n) = some n` -/
+
+theorem digitsVal_eq (l : List Char) (hd : ∀ c ∈ l, c.isDigit = true) :
+    ∀ acc, Fn.digitsVal l acc = some (Nat.ofDigitChars 10 l acc) := by
+  induction l with
+  | nil => intro acc; rfl
+  | cons c r ih =>
+    intro acc
+    have hc := hd c List.mem_cons_self
+    have hc' : '0' ≤ c ∧ c ≤ '9' := by
+      simp only [Char.isDigit, Bool.and_eq_true, decide_eq_true_eq] at hc
+      exact ⟨by simpa [Char.le_def] using hc.1, by simpa [Char.le_def] using hc.2⟩
+    simp only [Fn.digitsVal, hc', and_self, if_true, Nat.ofDigitChars_cons]
+    rw [ih (fun c' h' => hd c' (List.mem_cons_of_mem _ h'))]
+    congr 2
+    rw [Nat.mul_comm]
+
+theorem ofDigitChars_lt (l : List Char) (hd : ∀ c ∈ l, c.isDigit = true) : Nat.ofDigitChars 10 l 0 < 10 ^ l.length := by
+  induction l with
+  | nil => simp
+  | cons c r ih =>
+    have hr := ih (fun c' h' => hd c' (List.mem_cons_of_mem _ h'))
+    have hc := hd c List.mem_cons_self
+    have hc9 : c.toNat - '0'.toNat ≤ 9 := by
+      simp only [Char.isDigit, Bool.and_eq_true, decide_eq_true_eq, UInt32.le_iff_toNat_le] at hc
+      have h57 : c.val.toNat ≤ 57 := hc.2
+      have hcn : c.toNat = c.val.toNat := rfl
+      have h0 : '0'.toNat = 48 := rfl
+      omega
+    rw [Nat.ofDigitChars_cons, Nat.ofDigitChars_eq_ofDigitChars_zero]
+    simp only [Nat.mul_zero, Nat.zero_add, List.length_cons, Nat.pow_succ]
+    have : 10 ^ r.length * (c.toNat - '0'.toNat) ≤ 10 ^ r.length * 9 := Nat.mul_le_mul_left _ hc9
+    omega
+
+theorem idx_toString (n : Nat) (h : n < 4294967295) : Fn.idx? (toString n) = some n := by
+  have hl : (toString n).toList = Nat.toDigits 10 n := by rw [Nat.toString_eq_repr]; exact Nat.toList_repr
+  have hdig : ∀ c ∈ Nat.toDigits 10 n, c.isDigit = true := fun c hc => Nat.isDigit_of_mem_toDigits (by decide) (by decide) hc
+  have hval : Nat.ofDigitChars 10 (Nat.toDigits 10 n) 0 = n := Nat.ofDigitChars_ten_toDigits
+  unfold Fn.idx?
+  rw [hl]
+  cases hk : Nat.toDigits 10 n with
+  | nil => exact absurd hk Nat.toDigits_ne_nil
+  | cons c r =>
+    rw [hk] at hdig hval
+    by_cases hc0 : c = '0'
+    · subst hc0
+      cases r with
+      | nil =>
+        have : n = 0 := by simpa [Nat.ofDigitChars_cons] using hval.symm
+        subst this; rfl
+      | cons c2 r2 =>
+        exfalso
+        have hlen : ¬ (Nat.toDigits 10 n).length ≤ (c2 :: r2).length := by rw [hk]; simp
+        rw [Nat.length_toDigits_le_iff (by decide) (by simp)] at hlen
+        have hlt := ofDigitChars_lt (c2 :: r2) (fun c' h' => hdig c' (List.mem_cons_of_mem _ h'))
+        have : Nat.ofDigitChars 10 ('0' :: c2 :: r2) 0 = Nat.ofDigitChars 10 (c2 :: r2) 0 := by
+          rw [Nat.ofDigitChars_cons]; simp
+        rw [this] at hval
+        omega
+    · have hdv := digitsVal_eq (c :: r) hdig 0
+      rw [hval] at hdv
+      split
+      · rename_i heq; cases heq
+      · rename_i heq; simp at heq; exact absurd heq.1 hc0
+      · rename_i heq; simp at heq; exact absurd heq.1 hc0
+      · simp [hdv, h]
+
 end OttoVerif.C01.FnRefine
